@@ -167,12 +167,19 @@ func FilterJSON(t *rapid.T, fields []string, depth int, label string) string {
 
 		op := rapid.SampledFrom([]string{"and", "or"}).Draw(t, label+"-op")
 
-		// (a combining node may carry a collation too)
+		// (a combining node may carry a collation too; its members come in
+		// any order, like those of a leaf)
+		parts := []string{fmt.Sprintf(`"o":%q`, op), fmt.Sprintf(`"v":[%s]`, strings.Join(kids, ","))}
+
 		if rapid.IntRange(0, 3).Draw(t, label+"-nodecol") == 0 {
-			return fmt.Sprintf(`{"o":%q,"c":"nocase","v":[%s]}`, op, strings.Join(kids, ","))
+			parts = append(parts, `"c":"nocase"`)
 		}
 
-		return fmt.Sprintf(`{"o":%q,"v":[%s]}`, op, strings.Join(kids, ","))
+		if rapid.IntRange(0, 2).Draw(t, label+"-nodeperm") == 0 {
+			parts = rapid.Permutation(parts).Draw(t, label+"-nodeperm-order")
+		}
+
+		return "{" + strings.Join(parts, ",") + "}"
 	}
 
 	f := "x"
